@@ -169,18 +169,160 @@ class C13Machine(RuleBasedStateMachine):
             self.ex.close()
 
 
+# ------------------------------------------------------------------------------------------------ many descriptors
+# A long-running guest issues tens of thousands of descriptors (numbers are never reused).  Whatever the size of the table and however
+# it grows: every number handed out is new, the issued ones work, numbers beyond the last issued one - in particular those just
+# behind it and at the next powers of two - are BADF for every call, and closing some leaves their neighbours alone.
+def case_many(ch):
+    n = ch.pick((60, 250, 1000, 4090, 4100, 16380, 16390, 32760, 32770, 65520, 65530, 65540, 66000, 70000, 131080,
+                 (1 << (6 + ch.below(11))) + ch.below(8) - 4, 1 + ch.below(70000)))
+    return {'kind': 'many', 'n': n, 'unstable': bool(ch.below(4) == 0), 'close_first': ch.pick((0, 0, 10, 1000)),
+            'files': bool(ch.below(3) == 0), 'probe': [ch.below(1 << 16) for _ in range(6)]}
+
+
+def run_many(case):
+    import os
+    from .. import cexec
+    from .. import wasi as W
+    BADF = W.E['BADF']
+    d = cexec.new_dir('mf')
+    try:
+        root = os.path.join(d, 'root')
+        os.makedirs(os.path.join(root, 'sub'))
+        open(os.path.join(root, 'f'), 'wb').write(b'data')
+        ag = W.Agent(d, pages=64, cwd=d)
+        try:
+            ag.init([b'p'], [])
+            ok, pre = ag.preopen('root')
+            u = case['unstable']
+            ag.poke(W.PATHBUF, b'sub#')
+            ag.poke(W.PATHBUF2, b'f#')
+            RES = W.RES
+            # every open descriptor holds a host descriptor, so the bulk is opened and closed in turn (numbers are not reused) and
+            # a last batch stays open
+            n = case['n']
+            first = last = None
+            done = 0
+            popen = (pre, 0, W.PATHBUF2, 1, 0, 2, 2, 0, RES) if case['files'] else (pre, 0, W.PATHBUF, 3, 2, 0x4002, 0x4002, 0, RES)
+            keep = min(n, 40)
+            n_dirs = keep
+            if n - keep > 0:
+                r0 = ag.repeat(n - keep, RES, 'path_open', u, *popen, close=True)
+                if r0['dups']:
+                    return 'many-alias', '%d of %d path_open calls returned a number that was not larger than the one before' % (r0['dups'], n - keep)
+                if r0['ok']:
+                    first, last, done = r0['first'], r0['last'], r0['ok']
+                    for fd in sorted(set([first, last, (first + last) // 2] + [first + p % (last - first + 1) for p in case['probe']])):
+                        got = ag._call('fd_fdstat_get', u, fd, W.STATBUF)
+                        if got != BADF:
+                            return 'many-closed', 'fd_fdstat_get(%d) returned %s after the descriptor was closed (%d descriptors issued and closed so far)' % (fd, W.ename(got), done)
+            r = ag.repeat(keep, RES, 'path_open', u, *popen)
+            if r['dups']:
+                return 'many-alias', '%d of %d path_open calls returned a number that was not larger than the one before' % (r['dups'], keep)
+            if r['ok']:
+                if last is not None and r['first'] <= last:
+                    return 'many-alias', 'path_open handed out %d after %d' % (r['first'], last)
+                first = r['first'] if first is None else first
+                last = r['last']
+            # a failing open (host limits) is not a violation by itself; the numbers are judged by what was issued
+            if last is None:
+                return None
+            live_lo = last - (r['ok'] if n_dirs else 0) + 1 if n_dirs and r['ok'] else None
+
+            def expect(fd, fn, args, want, what):
+                got = ag._call(fn, u, *args)
+                if got != want:
+                    return 'many-%s' % what, ('%s(%d) returned %s, expected %s: %d descriptors were issued in this process (numbers %d..%d), %s'
+                                              % (fn, fd, W.ename(got), W.ename(want), done + (r['ok'] if n_dirs else 0), first, last, what))
+                return None
+            never = sorted(set([last + 1, last + 2, last + 3, last + 17, last + 1000, 1 << (last.bit_length()), (1 << last.bit_length()) + 1,
+                                65536, 65537, 65540, 70000, 1 << 17, 0x7fffffff, 0x80000000, 0xffffffff] + [last + 1 + p for p in case['probe']]))
+            never = [f for f in never if f > last]
+            for fd in never:
+                for fn, args in (('fd_fdstat_get', (fd, W.STATBUF)), ('fd_tell', (fd, RES)), ('fd_filestat_get', (fd, W.STATBUF)),
+                                 ('path_create_directory', (fd, W.PATHBUF, 3)), ('fd_close', (fd,))):
+                    bad = expect(fd, fn, args, BADF, 'never-issued')
+                    if bad:
+                        return bad
+            if live_lo is not None:
+                lives = sorted(set([live_lo, live_lo + 1, last, last - 1, (live_lo + last) // 2] +
+                                   [f for f in (4095, 4096, 4097, 16383, 16384, 32767, 32768, 65535) if live_lo <= f <= last] +
+                                   [live_lo + p % (last - live_lo + 1) for p in case['probe']]))
+                for fd in lives:
+                    bad = expect(fd, 'fd_fdstat_get', (fd, W.STATBUF), 0, 'live')
+                    if bad:
+                        return bad
+                    if ag.peek(W.STATBUF, 1) != (b'\x04' if case['files'] else b'\x03'):
+                        return 'many-live', 'fd_fdstat_get(%d): file type %r of the descriptor' % (fd, ag.peek(W.STATBUF, 1))
+                closing = lives[::2]
+                for fd in closing:
+                    bad = expect(fd, 'fd_close', (fd,), 0, 'live')
+                    if bad:
+                        return bad
+                for fd in lives:
+                    want = BADF if fd in closing else 0
+                    bad = expect(fd, 'fd_fdstat_get', (fd, W.STATBUF), want, 'closed' if fd in closing else 'neighbour-of-closed')
+                    if bad:
+                        return bad
+                for fd in closing:
+                    bad = expect(fd, 'fd_close', (fd,), BADF, 'closed')
+                    if bad:
+                        return bad
+                # and the table still hands out new numbers
+                r2 = ag.repeat(3, RES, 'path_open', u, *popen)
+                if r2['ok'] and (r2['dups'] or r2['first'] <= last):
+                    return 'many-alias', 'after %d descriptors path_open handed out %d (last issued before: %d)' % (n, r2['first'], last)
+            return None
+        finally:
+            ag.close()
+    finally:
+        cexec.rm(d)
+
+
+def many_task(wid, seed, params):
+    import collections
+    from ..choice import Chooser
+    res = {'evaluations': 0, 'nontrivial': set(), 'classes': collections.Counter(), 'samples': [], 'violations': [],
+           'infra': [], 'extra': {}}
+    for ci in range(params['ncases']):
+        case = case_many(Chooser(seed * 1000003 + ci))
+        try:
+            bad = run_many(case)
+        except AgentDied as e:
+            bad = ('many-agent-died:' + f1.normalize_diag(([l for l in e.stderr.splitlines() if 'ERROR' in l or 'runtime error' in l] or [''])[0]),
+                   '%s\n%s' % (e, cexec_san(e.stderr)))
+        res['evaluations'] += 1
+        res['classes']['descriptors_issued>=65536' if case['n'] >= 65536 else 'descriptors_issued>=4096' if case['n'] >= 4096 else 'descriptors_issued<4096'] += 1
+        res['nontrivial'].add(f1.hx(repr(case)))
+        if not res['samples']:
+            res['samples'].append('%d descriptors issued in one process, then never-issued / live / closed numbers probed' % case['n'])
+        if bad:
+            res['violations'].append({'signature': bad[0], 'summary': bad[1][:900], 'replay': {'kind': 'wasi-many', 'case': case, 'message': bad[1][:3000]}})
+            break
+    return res
+
+
+def cexec_san(err):
+    from .. import cexec
+    return cexec.san_head(err, 1200)
+
+
 def task(wid, seed, params):
+    if params.get('many'):
+        return many_task(wid, seed, params)
     return wasihyp.run_machine(C13Machine, seed, params['examples'], params['steps'])
 
 
 def replay(rp):
+    if rp.get('kind') == 'wasi-many':
+        return run_many(rp['case']) is not None
     return wasifs.replay_history(rp['history'], rp.get('npreopen', 1)) is not None
 
 
 def plan(tier, seed):
     if tier == 'quick':
-        return [{'examples': 500, 'steps': 30} for _ in range(16)]
-    return [{'examples': 10000, 'steps': 50} for _ in range(32)]
+        return [{'examples': 500, 'steps': 30} for _ in range(16)] + [{'many': True, 'ncases': 4} for _ in range(8)]
+    return [{'examples': 10000, 'steps': 50} for _ in range(32)] + [{'many': True, 'ncases': 60} for _ in range(16)]
 
 
 def run(tier, seed):
